@@ -7,7 +7,7 @@
 From Coq Require Import ZArith QArith Qabs Qcanon List Lia Reals.
 From Coquelicot Require Import Coquelicot.
 From DV Require Import Base.Field Base.FieldFacts Base.LinAlg Base.QcInst Model.Sampler Model.SamplerQc Model.Flow Model.FlowHull Model.FlowQc
-  Gen.FlowAlg Proofs.C11Interp Proofs.C11Compose Proofs.C11Compose3 Proofs.C11Expv Proofs.C11Hull Proofs.C11Gen Base.RInst Proofs.C11Limit Proofs.C11LimitModel Proofs.C11LimitAffine Proofs.C11LimitDiagonalizable Proofs.C11LimitConj2 Proofs.C11LimitAnalysis Proofs.C11LimitForms2 Proofs.C11LimitClass2 Proofs.C11LimitBlock3.
+  Gen.FlowAlg Proofs.C11Interp Proofs.C11Compose Proofs.C11Compose3 Proofs.C11Expv Proofs.C11Hull Proofs.C11Gen Base.RInst Proofs.C11Limit Proofs.C11LimitModel Proofs.C11LimitAffine Proofs.C11LimitDiagonalizable Proofs.C11LimitConj2 Proofs.C11LimitAnalysis Proofs.C11LimitForms2 Proofs.C11LimitClass2 Proofs.C11LimitBlock3 Proofs.C11LimitTrans2.
 Import ListNotations.
 
 Section Statements.
@@ -315,6 +315,26 @@ Theorem C11_convergence_block_generator_3d :
         (B3m (conj2m p q r s EJ) (exp z)).
 Proof. intros a b c d z. split; [intro k; apply closed_form_block3 | apply every_block_generator_converges3]. Qed.
 Print Assumptions C11_convergence_block_generator_3d.
+
+(* 7g. translation combined with an ARBITRARY invertible linear 2-D part: G = [M | h], det M <> 0.  For every k the translation
+       t_k of the closed form satisfies M t_k = (B_k - I) h (B_k = linear part of the closed form), hence t_k -> M^-1 (exp M - I) h,
+       the translation column of exp [M h; 0 0]; the linear part converges as in 7e.  (tr0, tr1) = M^-1 (E - I) h.
+       Still PARTIAL: translation with a SINGULAR non-diagonal linear part (singular diagonal ones are covered by 7b). *)
+Theorem C11_convergence_every_affine_generator_2d :
+  forall a b c d h0 h1 : R, a * d - b * c <> 0 ->
+  exists p q r s J EJ, p * s - q * r <> 0 /\ canonical J EJ /\ L2 a b c d = conj2m p q r s J /\
+  let E := conj2m p q r s EJ in
+  let A := fun k : nat => hpow (K:=RF) 2 (hone_plus (K:=RF) 2 (/ 2 ^ k) (H2 (K:=RF) a b h0 c d h1)) (2 ^ k) in
+  is_lim_seq (fun k => hentry (A k) 0 2) (tr0 a b c d h0 h1 E) /\ is_lim_seq (fun k => hentry (A k) 1 2) (tr1 a b c d h0 h1 E) /\
+  (forall i j, (i < 2)%nat -> (j < 2)%nat -> is_lim_seq (fun k => hentry (A k) i j) (hentry E i j)).
+Proof. exact every_affine_generator_converges2. Qed.
+Theorem C11_translation_limit_is_Minv_E_minus_I_h :
+  forall (a b c d h0 h1 : R) (E : list (list R)), a * d - b * c <> 0 ->
+  a * tr0 a b c d h0 h1 E + b * tr1 a b c d h0 h1 E = (hentry E 0 0 - 1) * h0 + hentry E 0 1 * h1 /\
+  c * tr0 a b c d h0 h1 E + d * tr1 a b c d h0 h1 E = hentry E 1 0 * h0 + (hentry E 1 1 - 1) * h1.
+Proof. exact tr_solves. Qed.
+Print Assumptions C11_convergence_every_affine_generator_2d.
+Print Assumptions C11_translation_limit_is_Minv_E_minus_I_h.
 Local Open Scope Q_scope.
 
 (* non-vacuity: a concrete generator on a 3 x 2 lattice (align_corners = false) that satisfies the hull predicate, is
